@@ -67,3 +67,8 @@ package dhcpd
 //@ func (s *v4Server) allocateLease(mac net.HardwareAddr) (l *dhcpsvc.Lease, err error)
 //@   requires held(s.leasesLock)
 //@   modifies *
+
+// The configuration-modified callback writes the configuration file and takes this package's configuration lock again
+// (home.onConfigModified -> config.write -> WriteDiskConfig): it must be invoked with no lock held.
+//@ package-callsite fieldcall:github.com/AdguardTeam/AdGuardHome/internal/dhcpd.ServerConfig.ConfigModified() requires nolocks()
+//@ sweep C05 fieldcall:github.com/AdguardTeam/AdGuardHome/internal/dhcpd.ServerConfig.ConfigModified
